@@ -584,6 +584,13 @@ func (m *model) evalLevel(r *Rule) []Triple {
 		for _, sv := range r.Setvars {
 			m.setvar(sv)
 		}
+		for _, c := range r.Ctl {
+			if v, ok := strings.CutPrefix(c, "ruleEngine="); ok {
+				m.engine = v
+			} else {
+				m.amb("ctl not modelled: " + c)
+			}
+		}
 	}
 	if r.Op == nil {
 		onMatch(Triple{}, nil)
@@ -817,16 +824,21 @@ func (m *model) runPhase(phase int) {
 // Run interprets the program on the request through the standard call sequence
 // (phases 1,2,3,4,5 in order, each once).
 func Run(p *Program, req *Req) *Result {
+	return RunPhases(p, req, []int{1, 2, 3, 4, 5})
+}
+
+// RunPhases interprets the program for an in-order subset of the phase calls (strictly increasing).
+func RunPhases(p *Program, req *Req, phases []int) *Result {
 	m := newModel(p, req)
-	if m.engine == "Off" {
-		return m.finish()
-	}
-	for phase := 1; phase <= 5; phase++ {
-		if phase == 3 {
+	for _, phase := range phases {
+		if phase >= 3 && m.singles["RESPONSE_STATUS"] == "" {
 			m.cols["RESPONSE_HEADERS"] = req.RespHeaders
 			m.singles["RESPONSE_STATUS"] = strconv.Itoa(req.Status)
 		}
 		if m.res.Intr != nil && phase != 5 {
+			continue
+		}
+		if m.engine == "Off" {
 			continue
 		}
 		m.runPhase(phase)
